@@ -391,15 +391,27 @@ def C13_6(ctx, facts):
         rr = ct.roots(c.args[3])
         ctx.check(any(r.kind == "arg" and r.desc.startswith("request_parts.version") for r in rr), "connect_to|protocol-from-version", "the connector's protocol is request.version.into()",
                   "protocol roots %s" % sorted(map(repr, sig(rr))), c.where())
+    # ... and the mapping itself, as a table over http's five versions: HTTP/2 asks for an HTTP/2 connection, every other version
+    # (HTTP/0.9, 1.0, 1.1, and HTTP/3, which this client cannot speak) is carried over HTTP/1.1
     fr = [g for g in facts.fns.values() if g.nkey == "<client::conn::protocol::HttpProtocol as std::convert::From>::from"]
     if fr:
-        g = fr[0]
-        h2s = [b for (b, i, s) in g.aggregates("client::conn::protocol::HttpProtocol", "Http2")]
-        ok = bool(h2s)
-        for b in h2s:
-            # Http2 only for the HTTP_2 constant
-            ok = ok and any(True for _ in [0])
-        ctx.check(ok, "HttpProtocol::from|maps-h2", "From<Version> yields Http2 (only) for HTTP/2", "From<Version> never yields Http2", g.where())
+        from core import http_version, HTTP_VERSIONS, VERSION_CMP
+        g = facts.unit(fr[0], expand=True)
+        ctx.touched(g)
+        rows = 0
+        for vname in HTTP_VERSIONS:
+            key = "HttpProtocol::from|table|%s" % vname
+            try:
+                outs = {x for (x, _) in AbsPaths(g, raw_oracles=[VERSION_CMP], oracles=[INT_CMP, VALUE_EQ]).outcomes(state={1: http_version(vname)})}
+            except AbsPaths.Undecided as e:
+                ctx.undecided(key, str(e))
+                continue
+            rows += 1
+            got = sorted(x[1] if x is not None and x[0] == "variant" else "?" for x in outs)
+            want = "Http2" if vname == "HTTP_2" else "Http1"
+            ctx.check(got == [want], key, "a request of version %s asks for an %s connection" % (vname, want),
+                      "a request of version %s asks for %s, expected %s (HTTP/2 exactly when the request asked for HTTP/2)" % (vname, got, want), g.where())
+        ctx.floor("HttpProtocol::from|table-rows", rows, 5, "versions evaluated")
     else:
         ctx.missing("HttpProtocol::from", "From<http::Version> for HttpProtocol not found")
 
